@@ -64,6 +64,21 @@ template <typename CharT, typename SizeT>
     return dest;
 }
 
+// Three-way comparison of two characters. Plain char is compared as unsigned
+// char, like the C library does. All other character types compare by value.
+[[nodiscard]] constexpr auto str_char_compare(char lhs, char rhs) noexcept -> int
+{
+    auto const l = static_cast<unsigned char>(lhs);
+    auto const r = static_cast<unsigned char>(rhs);
+    return static_cast<int>(l > r) - static_cast<int>(l < r);
+}
+
+template <typename CharT>
+[[nodiscard]] constexpr auto str_char_compare(CharT lhs, CharT rhs) noexcept -> int
+{
+    return static_cast<int>(lhs > rhs) - static_cast<int>(lhs < rhs);
+}
+
 template <typename CharT>
 [[nodiscard]] constexpr auto strcmp(CharT const* lhs, CharT const* rhs) -> int
 {
@@ -72,7 +87,7 @@ template <typename CharT>
             break;
         }
     }
-    return static_cast<int>(*lhs) - static_cast<int>(*rhs);
+    return str_char_compare(*lhs, *rhs);
 }
 
 template <typename CharT, typename SizeT>
@@ -86,13 +101,24 @@ template <typename CharT, typename SizeT>
         u1 = static_cast<CharT>(*lhs++);
         u2 = static_cast<CharT>(*rhs++);
         if (u1 != u2) {
-            return static_cast<int>(u1 - u2);
+            return str_char_compare(u1, u2);
         }
         if (u1 == CharT(0)) {
             return 0;
         }
     }
 
+    return 0;
+}
+
+template <typename CharT, typename SizeT>
+[[nodiscard]] constexpr auto memcmp(CharT const* lhs, CharT const* rhs, SizeT count) -> int
+{
+    for (SizeT i = 0; i != count; ++i) {
+        if (lhs[i] != rhs[i]) {
+            return str_char_compare(lhs[i], rhs[i]);
+        }
+    }
     return 0;
 }
 
